@@ -78,6 +78,7 @@ func (k Keeper) CreateBasket(ctx sdk.Context, basket types.Basket) error {
 	k.SetLastBasketId(ctx, basketId)
 	basket.Id = basketId
 	basket.Surplus = sdk.Coins{} // surplus is zero at initial
+	basket.Amount = sdk.ZeroInt() // no token of the new basket exists yet
 
 	if len(basket.Tokens) == 0 {
 		return types.ErrEmptyUnderlyingTokens
